@@ -17,8 +17,9 @@ from pyvc.symexec import sqrt_fn
 FUNCTIONS = [(PT.FILE, 'GULP_PairTabulation._write_pot'), (PT.FILE, 'GULP_PairTabulation.write'), (PT.FILE, 'GULP_PairTabulation.__init__'),
              (PT.F_INIT, 'writePotentials'), (SF.FILE, '_writeSetFLPairPots'), (SF.FILE, 'writeSetFL'), (ET.FILE, 'ADP_EAMTabulation.write'),
              (FF.FILE, '_writeHeader'), (FF.FILE, '_writeValueBlock'), (FF.FILE, 'writeFuncFL'),
-             (XS.FILE, 'Excel_PairTabulation._populate_worksheet')]
-SPECSEQS = [GU.grows, FF.grid, FF.fcol, FF.ch1, FF.ch2, FF.ch3]
+             (XS.FILE, 'Excel_PairTabulation._populate_worksheet'), (XS.F_PT, '_r_value_iterator'), (XS.F_ET, '_rho_value_iterator'),
+             (XS.F_ET, 'Excel_EAMTabulation._add_eam_embed'), (XS.F_ET, 'Excel_EAMTabulation._add_eam_density')]
+SPECSEQS = [GU.grows, FF.grid, FF.fcol, FF.ch1, FF.ch2, FF.ch3, XS.grid_seq]
 
 def lemmas():
     out = []
@@ -68,9 +69,15 @@ MUTANTS = [
     (XS.FILE, 'Excel_PairTabulation._populate_worksheet', "r_idx += 2", "r_idx += 1", 'preserve/2'),
     (XS.FILE, 'Excel_PairTabulation._populate_worksheet', "col[0].value = pot(r)", "col[0].value = pot(r_idx)", 'preserve/2'),
     (XS.FILE, 'Excel_PairTabulation._populate_worksheet', "ws.cell(r_idx, 1, value=r)", "ws.cell(r_idx, 1, value=r_idx)", 'init/2'),
+    (XS.F_ET, '_rho_value_iterator', "range(tabulation.nrho)", "range(tabulation.nrho + 1)", 'post'),
+    (XS.F_PT, '_r_value_iterator', "float(tabulation.nr) - 1", "float(tabulation.nr)", 'preserve/0'),
+    (XS.F_ET, 'Excel_EAMTabulation._add_eam_embed', "v = p.embeddingFunction", "v = p.electronDensityFunction", 'preserve/0'),
+    (XS.F_ET, 'Excel_EAMTabulation._add_eam_embed', "_rho_value_iterator(self)", "_r_value_iterator(self)", 'post'),
+    (XS.F_ET, 'Excel_EAMTabulation._add_eam_density', "pot_dict[k] = v", "pot_dict.setdefault(k, v)", 'preserve/0'),
+    (XS.F_ET, 'Excel_EAMTabulation._add_eam_density', "wb.create_sheet('EAM-Density')", "wb.create_sheet('EAM-Embed')", 'post'),
 ]
 ASSUMPTIONS = ['A1: float as real', 'A7: GULP "spline cubic" library format; LAMMPS pair_style adp layout (u blocks then w blocks, lower triangle, unscaled)', 'A6: openpyxl cell model (contracts/excel.py: ws["A1"], ws.cell, iter_cols over one row, cell.value writing through to its sheet)']
-BOUNDED = [dict(name='the Excel sheets as whole workbooks: which (label, function) pairs and which grid the _add_* methods hand to the verified sheet-filling function _populate_worksheet, sheet names, saving (and funcfl on the real code as a cross-check)', bound='seeded models, quick 60 / thorough 1500 cases',
+BOUNDED = [dict(name='the Excel sheets as whole workbooks: the Pair sheet and the Finnis-Sinclair density sheet (their labels are formatted texts: which (label, function) pairs they hand to the verified _populate_worksheet), the assembly of the workbook and saving (and funcfl on the real code as a cross-check)', bound='seeded models, quick 60 / thorough 1500 cases',
                 technique='concrete oracle on the real code')]
 NOTES = ['ADP_EAMTabulationFactory._extract_pots (dipole/quadrupole sections read like [Pair]) is exercised through C09/C16 contracts, not here']
 
